@@ -201,7 +201,7 @@ func accAlloc(k *chain.Keys, m int) chain.GenesisAlloc {
 
 func unionMenu(w *chain.World) []chain.Action {
 	return []chain.Action{
-		chain.V1Pay(true, 2), chain.V1Chain(), chain.V1SF(true), chain.V1Form(1, 2, 100), chain.V1Form(0, 1, 10), chain.V1Revise("pay"), chain.V1Revise("grow"), chain.V1Proof(false), chain.V1Proof(true),
+		chain.V1Pay(true, 2), chain.V1Chain(), chain.V1SF(true), chain.V1SFChain(), chain.V1Form(1, 2, 100), chain.V1Form(0, 1, 10), chain.V1Revise("pay"), chain.V1Revise("grow"), chain.V1Proof(false), chain.V1Proof(true),
 		chain.V2Pay(chain.AddrV2, true, 2), chain.V2Chain(chain.AddrACS), chain.V2SF(true), chain.V2Form(1, 2, 100), chain.V2Form(0, 1, 10),
 		chain.V2Revise("pay"), chain.V2Revise("grow"), chain.V2Renew("partial"), chain.V2Proof(), chain.V2Expire(), chain.V2Attest(),
 		// several MidState code paths for ONE element inside a block (the leaf that revert restores / apply writes)
